@@ -83,13 +83,13 @@ func runC10(x *Ctx) {
 		}
 		sc = genChainScen(x, k, 1, maxClients, maxReqs)
 		// plain handlers are not filters or route functions: crash points only in filters there
-		for _, r := range sc.all() {
+		for _, r := range sc.live() {
 			if r.PanicAt != "" {
 				r.AddSvc = true
 			}
 		}
 		// every client ends with a normal request: the container must still serve
-		id := len(sc.all())
+		id := len(sc.live())
 		for ci := range sc.Clients {
 			id++
 			r := &ChainReq{ID: id, Target: "route", AE: []string{"gzip", "deflate", ""}[tp.G(3)], N: 200, Chunks: []int{64}}
@@ -111,6 +111,7 @@ func runC10(x *Ctx) {
 			cr.env.byID[xr.ID] = xr
 		}
 	}
+	cr.age(s, sc)
 	runClients(s, cr, sc, func(t *sim.Task, r *ChainReq) {
 		if !r.AddSvc {
 			return
